@@ -73,6 +73,8 @@ pub enum Op {
     BoxedFold,
     BoxClone,
     BoxNew,
+    /// direct call of the doc-hidden entry points with a boxed right-hand operand: 0 = boxed.inverted_zip(stack), 1 = boxed.inverted_zip2(boxed)
+    BoxInvertedZip(u8),
     /// boxed map to a type of the same size but lower alignment (u64 -> [u16; 4], align(32) -> [u8; 32], u8 -> i8 as control)
     BoxedMapNarrow,
     /// boxed collect / boxed map of arrays around and above 1 MiB: (shape 0..5, exact size hint?)
@@ -238,6 +240,26 @@ fn run_op<T: Elem + Peek + Clone + Default, N: ArrayLength>(op: Op, arm_at_op: &
             let c = b.clone();
             drop(b);
             drop(c);
+        }
+        Op::BoxInvertedZip(which) => {
+            let a = arr();
+            let b = Box::new(arr());
+            arm_at_op();
+            if which == 0 {
+                drop(b.inverted_zip(a, |l, r| {
+                    registry::tick("boxed inverted_zip closure");
+                    let v = l.get() ^ r.get();
+                    drop((l, r));
+                    T::mk(v)
+                }));
+            } else {
+                drop(b.inverted_zip2(Box::new(a), |l, r| {
+                    registry::tick("boxed inverted_zip2 closure");
+                    let v = l.get() ^ r.get();
+                    drop((l, r));
+                    T::mk(v)
+                }));
+            }
         }
         Op::BoxedMapNarrow | Op::LargeCollect(..) => unreachable!(),
     }
@@ -453,7 +475,7 @@ pub fn exec(case: &Case, acc: &mut Acc) -> Result<(), String> {
 }
 
 fn ops_for(n: usize) -> Vec<Op> {
-    let mut v = vec![Op::BoxedMapNarrow, Op::ArrToVec, Op::ArrToSlice, Op::BoxNew, Op::BoxIntoSlice, Op::BoxIntoVec, Op::DefaultBoxed, Op::BoxedGenerate, Op::BoxArrRepeat, Op::BoxedMap, Op::BoxedZip, Op::BoxedFold, Op::BoxClone];
+    let mut v = vec![Op::BoxInvertedZip(0), Op::BoxInvertedZip(1), Op::BoxedMapNarrow, Op::ArrToVec, Op::ArrToSlice, Op::BoxNew, Op::BoxIntoSlice, Op::BoxIntoVec, Op::DefaultBoxed, Op::BoxedGenerate, Op::BoxArrRepeat, Op::BoxedMap, Op::BoxedZip, Op::BoxedFold, Op::BoxClone];
     for d in [-1i8, 0, 1] {
         if n == 0 && d < 0 {
             continue;
@@ -569,7 +591,7 @@ pub fn main() {
         Report {
             prop: PROP,
             level: "fault_enumeration",
-            rule: "operation instance = (alloc-feature operation, N in {0,1,2,3,7,8,16,33,1024}, element kind u8 / u64 / () / GenericArray<u32,U0> (zero-sized by length) / drop-tracked with heap payload / 32-byte-aligned). Operations: TryFrom<Vec> and TryFrom<Box<[T]>> (lengths N-1, N, N+1; spare capacity 0/1/5), From<GenericArray> for Vec / Box<[T]>, Box::new, into_boxed_slice, into_vec (+ push to force a realloc of the handed-over block), try_from_boxed_slice, try_from_vec, Box<GenericArray>::into_iter partially consumed, try_boxed_from_iter / boxed collect (N-1, N, N+1 items, exact or unknown hint), default_boxed, boxed generate, box_arr! repeat form, boxed map / zip / fold, boxed map to a same-size lower-alignment type, Box clone; boxed collect and boxed map of arrays of 1 MiB, 1 MiB + 1 element, 1.5 MiB and 3 MiB from exact and inexact sources. \
+            rule: "operation instance = (alloc-feature operation, N in {0,1,2,3,7,8,16,33,1024}, element kind u8 / u64 / () / GenericArray<u32,U0> (zero-sized by length) / drop-tracked with heap payload / 32-byte-aligned). Operations: TryFrom<Vec> and TryFrom<Box<[T]>> (lengths N-1, N, N+1; spare capacity 0/1/5), From<GenericArray> for Vec / Box<[T]>, Box::new, into_boxed_slice, into_vec (+ push to force a realloc of the handed-over block), try_from_boxed_slice, try_from_vec, Box<GenericArray>::into_iter partially consumed, try_boxed_from_iter / boxed collect (N-1, N, N+1 items, exact or unknown hint), default_boxed, boxed generate, box_arr! repeat form, boxed map / zip / fold, direct inverted_zip / inverted_zip2 calls on a boxed operand, boxed map to a same-size lower-alignment type, Box clone; boxed collect and boxed map of arrays of 1 MiB, 1 MiB + 1 element, 1.5 MiB and 3 MiB from exact and inexact sources. \
                    For each instance: a clean run with the whole life of inputs and results inside the recorded allocator window; a panic injected at every invocation of caller code (closure, Default, Clone, next()); an allocation failure injected at every allocation the operation performs (child process, k = 0,1,... until the operation completes). \
                    Oracle: no zero-size request; every dealloc/realloc carries the size and alignment the block was requested with; no block freed twice; no block allocated by the case live once all values are gone (also after the injected panic); on allocation failure the child must die through Rust's standard path (SIGABRT with 'memory allocation of N bytes failed'). \
                    non-trivial = at least one allocation happened and a panic fired, or an allocation failure was injected; distinct = distinct (instance, fault)",
